@@ -162,7 +162,12 @@ where
 
     #[inline]
     fn next(&mut self) -> Option<Self::Item> {
-        self.iter.next()
+        let item = self.iter.next();
+        if item.is_some() {
+            // one item fewer is left: keep the announced length exact after partial consumption
+            self.len = self.len.saturating_sub(1);
+        }
+        item
     }
 
     fn size_hint(&self) -> (usize, Option<usize>) {
@@ -178,7 +183,11 @@ where
 {
     #[inline]
     fn next_back(&mut self) -> Option<Self::Item> {
-        self.iter.next_back()
+        let item = self.iter.next_back();
+        if item.is_some() {
+            self.len = self.len.saturating_sub(1);
+        }
+        item
     }
 }
 
